@@ -270,6 +270,19 @@ func route(t failer, f format, batch *metric.BrokerBatchRows, want []accepted, d
 	return st
 }
 
+// amKey identifies a generated metric independently of the clock (timestamp as offset from
+// the case's now) and of addresses.
+func amKey(m *am, now int64) string {
+	k := fmt.Sprintf("%q/%q/%d/%q/", m.NS, m.Name, m.TS-now, m.Tags)
+	for _, f := range m.Fields {
+		k += fmt.Sprintf("%q:%d:%s,", f.Name, f.Type, fbits(f.Value))
+	}
+	if c := m.Comp; c != nil {
+		k += fmt.Sprintf("/comp:%v:%v:%s:%s:%s:%s", c.Bounds, c.Values, fbits(c.Min), fbits(c.Max), fbits(c.Sum), fbits(c.Count))
+	}
+	return k
+}
+
 // nowOf is only used to print offsets in failure messages.
 var caseNow int64
 
@@ -346,9 +359,7 @@ func TestIngestRoute(t *testing.T) {
 			}
 			canonCase += fmt.Sprintf("|%s ns=%q en=%v lim=%v:", f, rc.NS, rc.Enriched, *rc.Limits)
 			for _, m := range ms {
-				mm := *m
-				mm.TS -= now
-				canonCase += fmt.Sprintf("%+v%v;", mm, m.Comp)
+				canonCase += amKey(m, now) + ";"
 			}
 			if batch == nil { // nothing accepted: production returns an error to the client, no routing
 				classes["step=all-rejected"] = true
@@ -517,11 +528,9 @@ func TestFormatsAgree(t *testing.T) {
 		if influxy {
 			classes = append(classes, "influx-expressible")
 		}
-		tt := *target
-		tt.TS -= now
 		// non-trivial: accepted, >= 2 tags (a permutation exists) and >= 2 formats compared
 		nt := acceptedAny && len(target.Tags) >= 2 && len(outs) >= 2
-		ev.Case("TestFormatsAgree", fmt.Sprintf("%+v%v|%q|%v|%v|%d", tt, tt.Comp, rc.NS, rc.Enriched, *rc.Limits, shards), nt, classes,
+		ev.Case("TestFormatsAgree", fmt.Sprintf("%s|%q|%v|%v|%d", amKey(target, now), rc.NS, rc.Enriched, *rc.Limits, shards), nt, classes,
 			map[string]any{"name": target.Name, "tags": fmt.Sprint(target.Tags), "fields": fmt.Sprint(target.Fields), "formats": len(outs), "accepted": acceptedAny})
 	})
 }
